@@ -7,16 +7,26 @@ from vlib.harness import Outcome, TOL_W, scale_of
 
 ID = "C04"
 TITLE = "PWLCalibration weight constraint returns keypoint outputs meeting all its limits"
-RULE = ("Hypothesis draws a valid PWLCalibration configuration (2-8 keypoints "
-        "with spacings from {1e-2..100}, thorough up to 12; monotonicity "
-        "{-1,0,1}, convexity {-1,0,1}, bounds {none,min,max,both, incl. "
-        "zero width}, clamps (only with monotonicity, as documented), cyclic, "
-        "units 1-3, iterations in {0,1,2,8,30}), an entry point "
-        "(PWLCalibrationConstraints, project_all_constraints, the layer's "
-        "kernel constraint + keypoints_outputs(), NaiveBoundsConstraints on the "
-        "missing output) and a kernel (random mixture incl. biases far outside "
-        "the bounds and heights of the wrong sign; feasible by construction; "
-        "feasible plus one injected violation). Non-trivial: a constraint is "
+RULE = ("Hypothesis draws a valid PWLCalibration configuration (2-8 keypoints, "
+        "one case in five 9-16, thorough up to 12 / 24; keypoint spacings from "
+        "the grid {1e-6, 1e-5, 2e-4..100} (one gap for all segments or one "
+        "per segment), log-uniform gaps in [1e-6, 1e4] or all in [1e-6, "
+        "1e-4], irrational ratios (0.3/0.7), offsets of 1e4..1e6 where "
+        "float32 quantises the gaps, integer keypoints; monotonicity {-1,0,1}, convexity {-1,0,1}, "
+        "bounds {none,min,max,both, incl. zero width}, clamps (only with "
+        "monotonicity, as documented), cyclic, units 1-3, iterations in "
+        "{0,1,2,8,30}), an entry point (PWLCalibrationConstraints, "
+        "project_all_constraints - both with lengths as tensor / list / "
+        "ndarray / None (None only without convexity, as documented) - the "
+        "layer's kernel constraint + keypoints_outputs() with fixed or "
+        "learned_interior keypoints, NaiveBoundsConstraints on the missing "
+        "output), a spelling (ints or 'increasing'/'convex' strings; keypoints "
+        "as list / tuple / float32 / float64 ndarray / Python ints), a dtype "
+        "(float32, one case in eight float64) and a kernel (random mixture "
+        "incl. biases far outside the bounds and heights of the wrong sign; "
+        "feasible by construction; feasible plus one injected violation; "
+        "'short': monotone, convex, inside the bounds, uniform spacing, but "
+        "the far clamped bound not reached). Non-trivial: a constraint is "
         "configured and the input violates one by > 10x tolerance, or the case "
         "is a non-constant feasible kernel; distinct by SHA-1 of the case.")
 NT_FLOOR = 0.5
@@ -25,34 +35,185 @@ TECHNIQUE = ("property-based testing (Hypothesis): generated configurations and 
              "kernels against a float64 keypoint-output oracle; constructive "
              "feasible kernels for the unchanged clause")
 LEVEL_TEXT = ("Generated-input exploration of the PWL weight constraint over "
-              "configurations x kernels x entry points; per unit the float64 "
-              "oracle checks exact sign of every height, cumulative outputs "
-              "inside the bounds, slope ordering for convexity, clamp values, "
-              "imputed missing output inside the bounds, and that feasible "
-              "kernels come back unchanged. The two tolerated relaxations of the "
-              "statement are exempted and counted.")
+              "configurations x kernels x entry points x spellings x dtypes; "
+              "per unit the float64 oracle checks exact sign of every height, "
+              "cumulative outputs inside the bounds, slope ordering for "
+              "convexity, clamp values, imputed missing output inside the "
+              "bounds (unchanged when it already is), and that feasible "
+              "kernels come back unchanged. Inside the two tolerated "
+              "relaxations of the statement only the part that the relaxation "
+              "explains is exempted (and counted); the rest is judged as a "
+              "residual bound (violation kinds conv-residual / clamp-residual).")
 LEVEL_NOTE = ("Tolerance 2e-5*S (S = max(1,|result|,|bounds|); S incl. input for "
               "the unchanged clause); convexity judged as h[i+1] - h[i]*l[i+1]/"
-              "l[i] with tolerance scaled by max(1, l[i+1]/l[i]). Known findings "
-              "F-C04-1/2 are matched by signature. <= 8 keypoints quick, 12 "
-              "thorough.")
+              "l[i] with tolerance scaled by max(1, l[i+1]/l[i]). Residual "
+              "rules (all hold for any capping-based finaliser, none compares "
+              "two library runs): convexity + bounds without monotonicity - a "
+              "violation may only sit at a keypoint that is, or neighbours one "
+              "that is, at the bound whose capping breaks the shape (output_max "
+              "for convex, output_min for concave; if that bound is not "
+              "configured the full claim applies) and is at most the output "
+              "range; clamp + convexity with >= 1 iteration - the clamp at the "
+              "first keypoint (the bias, which neither monotonicity nor "
+              "convexity constrains) is met to the clamp tolerance, and a "
+              "monotone convex kernel with uniform spacing that only misses "
+              "the far clamp must reach it (its L2 projection onto the clamp "
+              "is feasible for every other set). The far clamp for other "
+              "kernels and clamps at 0 iterations stay exempt. 'result <= "
+              "input' and 'more iterations <= fewer' were tried and rejected: "
+              "both fail on the unmodified library. Known findings F-C04-1/2 "
+              "are matched by signature. <= 16 keypoints quick, 24 thorough.")
+ASSUMPTIONS = [
+    "lengths may be given to PWLCalibrationConstraints / "
+    "project_all_constraints as anything TensorFlow converts to a float32 "
+    "tensor (tensor, list of Python floats, float32 ndarray); a float64 "
+    "ndarray next to float32 weights is not generated",
+    "spelled monotonicity / convexity strings are only given to the layer and "
+    "to PWLCalibrationConstraints (project_all_constraints documents ints)"]
 
 ENTRIES = ["constraint", "constraint", "lib", "layer", "layer"]
+ENTRIES_CYCLIC = ["layer", "layer", "layer", "constraint", "lib"]
+KP_MODES = ["grid", "grid", "grid", "grid", "loguniform", "loguniform",
+            "loguniform-tiny", "irrational", "far-offset", "ints"]
+# the shared fine grid plus gaps of neighbouring float32 / quantile keypoints.
+SPACINGS_TINY = [1e-6, 1e-5] + list(S.SPACINGS_FINE)
+GAPS_IRRATIONAL = [0.3, 0.7, 0.1, 1.0 / 3.0, 2.0 / 3.0, 0.011]
+MONO_STR = {1: "increasing", -1: "decreasing", 0: "none"}
+CONV_STR = {1: "convex", -1: "concave", 0: "none"}
+
+
+@st.composite
+def _keypoints(draw, max_k, long_k):
+  """Strictly increasing float32-representable keypoints + how they were made."""
+  mode = draw(st.sampled_from(KP_MODES))
+  if draw(st.integers(0, 4)) == 0:
+    k = draw(st.integers(9, long_k))
+  else:
+    k = draw(st.integers(2, max_k))
+  if mode == "grid":
+    return draw(S.pwl_keypoints(min_k=k, max_k=k,
+                                spacings=SPACINGS_TINY)), mode
+  same = draw(st.integers(0, 3)) == 0
+  if mode == "loguniform":
+    start = draw(st.sampled_from([-100.0, -1.0, 0.0, 0.5, 10.0]))
+    gap = st.floats(min_value=-6.0, max_value=4.0, allow_nan=False).map(
+        lambda e: 10.0 ** e)
+  elif mode == "loguniform-tiny":      # every gap tiny: neighbouring tiny gaps
+    start = draw(st.sampled_from([-1.0, 0.0, 0.5]))
+    gap = st.floats(min_value=-6.0, max_value=-4.0, allow_nan=False).map(
+        lambda e: 10.0 ** e)
+  elif mode == "irrational":
+    start = draw(st.sampled_from([-1.0, 0.0, 0.5, 10.0]))
+    gap = st.sampled_from(GAPS_IRRATIONAL)
+  elif mode == "far-offset":
+    start = draw(st.sampled_from([1e4, -1e5, 1e6, -1e6]))
+    gap = st.sampled_from([1e-5] + S.SPACINGS_FINE)
+  else:
+    start = draw(st.sampled_from([-100.0, -1.0, 0.0, 10.0]))
+    gap = st.sampled_from([1.0, 1.0, 2.0, 3.0, 100.0])
+  if same:
+    gaps = [draw(gap)] * (k - 1)
+  else:
+    gaps = [draw(gap) for _ in range(k - 1)]
+  kp = [start]
+  for g in gaps:
+    kp.append(kp[-1] + g)
+  kp = S.f32(kp)
+  for i in range(1, len(kp)):
+    if kp[i] <= kp[i - 1]:
+      kp[i] = float(np.nextafter(np.float32(kp[i - 1]), np.float32(np.inf)))
+  return kp, mode
+
+
+@st.composite
+def _config(draw, max_k, long_k):
+  """S.pwl_config with the wider keypoint generator."""
+  kp, mode = draw(_keypoints(max_k, long_k))
+  mono = draw(st.sampled_from([-1, 0, 1, 1]))
+  conv = draw(st.sampled_from([0, 0, -1, 1]))
+  cyclic = False
+  if len(kp) >= 3 and draw(st.integers(0, 5)) == 0:
+    cyclic, mono, conv = True, 0, 0
+  bm = draw(st.sampled_from(["none", "min", "max", "both", "both"]))
+  lo = S.f32(draw(st.sampled_from([-10.0, -1.0, 0.0, 0.5, 100.0])))
+  width = S.f32(draw(st.sampled_from([0.0, 0.5, 1.0, 3.0, 1000.0])))
+  omin = lo if bm in ("min", "both") else None
+  omax = S.f32(lo + width) if bm in ("max", "both") else None
+  clamp_min = bool(mono != 0 and omin is not None and draw(st.booleans()))
+  clamp_max = bool(mono != 0 and omax is not None and draw(st.booleans()))
+  return {"keypoints": kp, "units": draw(st.integers(1, 3)), "mono": mono,
+          "conv": conv, "cyclic": cyclic, "omin": omin, "omax": omax,
+          "clamp_min": clamp_min, "clamp_max": clamp_max,
+          "iters": draw(st.sampled_from([0, 1, 2, 8, 30])), "kp_mode": mode}
+
+
+@st.composite
+def _short_config(draw, long_k):
+  """Monotone + convex + far clamp, exactly uniform (dyadic) spacing, >= 1
+  iteration: the configuration of the 'short' kernel class."""
+  k = draw(st.integers(3, long_k if draw(st.integers(0, 4)) == 0 else 8))
+  start = draw(st.sampled_from([-1.0, 0.0, 0.5, 10.0]))
+  gap = draw(st.sampled_from([2.0 ** -10, 0.25, 0.5, 1.0, 2.0]))
+  mono = draw(st.sampled_from([-1, 1]))
+  lo = S.f32(draw(st.sampled_from([-10.0, -1.0, 0.0, 0.5, 100.0])))
+  width = S.f32(draw(st.sampled_from([0.5, 1.0, 3.0, 1000.0])))
+  near = draw(st.sampled_from(["none", "bound", "clamped"]))
+  far_is_max = mono == 1
+  omin, omax = lo, S.f32(lo + width)
+  clamp_min, clamp_max = not far_is_max, far_is_max
+  if near == "none":
+    if far_is_max:
+      omin = None
+    else:
+      omax = None
+  elif near == "clamped":
+    clamp_min = clamp_max = True
+  return {"keypoints": S.f32([start + i * gap for i in range(k)]),
+          "units": draw(st.integers(1, 3)), "mono": mono,
+          "conv": draw(st.sampled_from([-1, 1])), "cyclic": False,
+          "omin": omin, "omax": omax, "clamp_min": clamp_min,
+          "clamp_max": clamp_max, "iters": draw(st.sampled_from([1, 2, 8, 30])),
+          "kp_mode": "uniform-dyadic"}
 
 
 @st.composite
 def _case(draw, tier):
-  cfg = draw(S.pwl_config(max_k=8 if tier == "quick" else 12,
-                          spacings=S.SPACINGS_FINE))
-  entry = "layer" if cfg["cyclic"] else draw(st.sampled_from(ENTRIES))
+  max_k, long_k = (8, 16) if tier == "quick" else (12, 24)
+  kmode = draw(st.sampled_from(["raw"] * 5 + ["feasible"] * 3 +
+                               ["feasible+viol"] * 3 + ["short"]))
+  if kmode == "short":
+    cfg = draw(_short_config(long_k))
+  else:
+    cfg = draw(_config(max_k, long_k))
+  entry = draw(st.sampled_from(ENTRIES_CYCLIC if cfg["cyclic"] else ENTRIES))
   rows = len(cfg["keypoints"]) - (1 if cfg["cyclic"] else 0)
-  return {"cfg": cfg, "entry": entry,
-          "kmode": draw(st.sampled_from(["raw", "raw", "feasible",
-                                         "feasible+viol"])),
+  case = {"cfg": cfg, "entry": entry, "kmode": kmode,
           "kernel": draw(S.array_desc(shape=(rows, cfg["units"]))),
           "missing": draw(S.array_desc(kinds=["normal", "ints"],
                                        shape=(1, cfg["units"]))),
           "aux": draw(S.seeds)}
+  # how the arguments are written: all documented-as-equivalent forms.
+  integral = all(float(v).is_integer() and abs(v) < 2 ** 24
+                 for v in cfg["keypoints"])
+  case["spell"] = {
+      "mono": draw(st.sampled_from(["int", "int", "str"])),
+      "conv": draw(st.sampled_from(["int", "int", "str"])),
+      "kp": ("ints" if integral and draw(st.booleans()) else draw(
+          st.sampled_from(["list", "list", "tuple", "ndarray32",
+                           "ndarray64"])))}
+  case["dtype"] = "float64" if draw(st.integers(0, 7)) == 0 else "float32"
+  if entry == "layer":
+    case["kp_type"] = ("learned_interior" if cfg["conv"] == 0 and
+                       draw(st.booleans()) else "fixed")
+  else:
+    forms = ["tensor", "tensor", "list", "ndarray"]
+    if cfg["conv"] == 0:
+      forms = ["tensor", "none", "none", "list", "ndarray"]
+    case["lengths"] = draw(st.sampled_from(forms))
+    if case["lengths"] == "list":
+      case["dtype"] = "float32"     # a Python list becomes a float32 tensor
+  case["missing_mode"] = draw(st.sampled_from(["raw", "raw", "inside"]))
+  return case
 
 
 def strategy(tier):
@@ -109,6 +270,35 @@ def feasible_kernel(cfg, rows, aux):
   return out.astype(np.float32)
 
 
+def short_kernel(cfg, rows, aux):
+  """Strictly monotone, convex/concave, inside the bounds, the clamp at the
+  first keypoint (if any) met, the clamp at the last keypoint missed by
+  10-60 % of the width.  Uniform spacing, so slopes order like heights."""
+  rs = np.random.RandomState(aux)
+  mono, conv = cfg["mono"], cfg["conv"]
+  lo, hi = cfg["omin"], cfg["omax"]
+  far = hi if mono == 1 else lo
+  near = lo if mono == 1 else hi
+  width = abs(hi - lo) if near is not None else max(1.0, abs(far))
+  near_clamped = cfg["clamp_min"] if mono == 1 else cfg["clamp_max"]
+  out = np.zeros((rows, cfg["units"]))
+  for u in range(cfg["units"]):
+    h = np.sort(rs.uniform(0.05, 1.0, size=rows - 1))     # increasing, > 0
+    if conv * mono == -1:
+      h = h[::-1]
+    short = rs.uniform(0.1, 0.6) * width
+    a = 0.0 if near_clamped else rs.uniform(0.02, 0.3) * width
+    if near is None:
+      total = rs.uniform(0.2, 2.0) * width
+    else:
+      total = width - short - a
+    h = h / h.sum() * total
+    # y runs from its first value towards the far bound, stopping short.
+    y0 = far - mono * (short + total)
+    out[:, u] = np.concatenate([[y0], mono * h])
+  return out.astype(np.float32)
+
+
 def measures(cfg, k64):
   """Per-unit violation measures of a kernel (rows, units) in float64."""
   rows, units = k64.shape
@@ -135,6 +325,58 @@ def measures(cfg, k64):
       m["clamp"] = max(m["clamp"], abs(float(last - cfg["omax"])))
     res.append(m)
   return res
+
+
+def clamp_parts(cfg, col):
+  """(miss of the clamp at the first keypoint, miss of the clamp at the last
+  keypoint) of one unit; None where that end is not clamped.  An increasing
+  function has output_min at its first keypoint, a decreasing one output_max."""
+  y = np.cumsum(col)
+  if cfg["mono"] >= 0:
+    near = (cfg["clamp_min"], cfg["omin"])
+    far = (cfg["clamp_max"], cfg["omax"])
+  else:
+    near = (cfg["clamp_max"], cfg["omax"])
+    far = (cfg["clamp_min"], cfg["omin"])
+  return (abs(float(y[0] - near[1])) if near[0] and near[1] is not None
+          else None,
+          abs(float(y[-1] - far[1])) if far[0] and far[1] is not None
+          else None)
+
+
+def conv_residual(cfg, col, tol):
+  """Residual rules for convexity + bounds without monotonicity.
+
+  The documented reason for the residual is the last step, which caps the
+  keypoint outputs at the bounds.  Capping a convex function from below (a
+  concave one from above) keeps the shape; capping from the other side changes
+  slopes only on segments that touch a capped keypoint.  Returns
+  (problem or None, number of tolerated violations)."""
+  rows = col.size
+  lens = lengths_of(cfg)[:rows - 1]
+  h, y = col[1:], np.cumsum(col)
+  if h.size < 2:
+    return None, 0
+  ratio = lens[1:] / lens[:-1]
+  d = cfg["conv"] * (h[1:] - h[:-1] * ratio) / np.maximum(1.0, ratio)
+  v = np.maximum(0.0, -d)            # v[i]: violation at interior keypoint i+1
+  brk = cfg["omax"] if cfg["conv"] == 1 else cfg["omin"]
+  tolerated = 0
+  for i in np.nonzero(v > tol)[0]:
+    if brk is None:
+      return ("by %.3g at keypoint %d although the only bound configured (%s) "
+              "cannot break the shape" % (
+                  v[i], i + 1, "output_min" if cfg["conv"] == 1 else
+                  "output_max")), tolerated
+    if not np.any(np.abs(y[i:i + 3] - brk) <= tol):
+      return ("by %.3g at keypoint %d whose outputs %s and neighbours are not "
+              "at the capping bound %g" % (v[i], i + 1, y[i:i + 3].tolist(),
+                                           brk)), tolerated
+    tolerated += 1
+  if float(v.max()) > float(y.max() - y.min()) + tol:
+    return ("by %.3g, more than the whole output range %.3g" % (
+        v.max(), y.max() - y.min())), tolerated
+  return None, tolerated
 
 
 def inject_violation(cfg, k32, aux):
@@ -178,11 +420,54 @@ def _bct(cfg):
   return omin_c, omax_c
 
 
+def spelled_keypoints(cfg, how):
+  kp = list(cfg["keypoints"])
+  if how == "tuple":
+    return tuple(kp)
+  if how == "ndarray32":
+    return np.asarray(kp, np.float32)
+  if how == "ndarray64":
+    return np.asarray(kp, np.float64)
+  if how == "ints" and all(float(v).is_integer() for v in kp):
+    return [int(v) for v in kp]
+  return kp
+
+
+def missing_value(case, cfg):
+  """float32 (1, units) value assigned to the imputed missing output."""
+  if case.get("missing_mode", "raw") != "inside":
+    return S.materialize(case["missing"], (1, cfg["units"]))
+  rs = np.random.RandomState(case["aux"] + 7)
+  lo, hi = cfg["omin"], cfg["omax"]
+  t = rs.choice([0.0, 1.0, rs.uniform(), rs.uniform()], size=cfg["units"])
+  if lo is not None and hi is not None:
+    v = np.clip(lo + t * (hi - lo), lo, hi)
+  elif lo is not None:
+    v = lo + t * rs.choice([1e-3, 1.0, 1e3])
+  elif hi is not None:
+    v = hi - t * rs.choice([1e-3, 1.0, 1e3])
+  else:
+    v = rs.normal(size=cfg["units"]) * rs.choice([1e-3, 1.0, 1e3])
+  v = v.astype(np.float32)
+  # float32 rounding must not leave the interval.
+  if lo is not None:
+    v = np.maximum(v, np.float32(lo))
+  if hi is not None:
+    v = np.minimum(v, np.float32(hi))
+  return v.reshape(1, cfg["units"])
+
+
 def apply_entry(case, k32, out):
   import tensorflow as tf
   import tensorflow_lattice as tfl
   from tensorflow_lattice.python import pwl_calibration_lib as L
   cfg = case["cfg"]
+  spell = case.get("spell") or {}
+  np_dtype = np.float64 if case.get("dtype") == "float64" else np.float32
+  mono_arg = MONO_STR[cfg["mono"]] if spell.get("mono") == "str" else (
+      cfg["mono"])
+  conv_arg = CONV_STR[cfg["conv"]] if spell.get("conv") == "str" else (
+      cfg["conv"])
   lens32 = (np.asarray(cfg["keypoints"], np.float32)[1:] -
             np.asarray(cfg["keypoints"], np.float32)[:-1])
   omin_c, omax_c = _bct(cfg)
@@ -190,24 +475,42 @@ def apply_entry(case, k32, out):
   omin = cfg["omin"] if cfg["omin"] is not None else (
       cfg["omax"] if cfg["omax"] is not None else 0.0)
   omax = cfg["omax"] if cfg["omax"] is not None else omin
-  if case["entry"] == "constraint":
-    c = tfl.pwl_calibration_layer.PWLCalibrationConstraints(
-        monotonicity=cfg["mono"], convexity=cfg["conv"],
-        lengths=tf.constant(lens32), output_min=omin, output_max=omax,
-        output_min_constraints=omin_c, output_max_constraints=omax_c,
-        num_projection_iterations=cfg["iters"])
-    return c(tf.constant(k32)).numpy()
-  if case["entry"] == "lib":
+  if case["entry"] in ("constraint", "lib"):
+    form = case.get("lengths", "tensor")
+    lens = lens32.astype(np_dtype)
+    lengths = (None if form == "none" else [float(v) for v in lens32]
+               if form == "list" else lens if form == "ndarray" else
+               tf.constant(lens))
+    out.label("lengths:" + form)
+    weights = tf.constant(k32.astype(np_dtype))
+    if case["entry"] == "constraint":
+      c = tfl.pwl_calibration_layer.PWLCalibrationConstraints(
+          monotonicity=mono_arg, convexity=conv_arg, lengths=lengths,
+          output_min=omin, output_max=omax, output_min_constraints=omin_c,
+          output_max_constraints=omax_c,
+          num_projection_iterations=cfg["iters"])
+      return c(weights).numpy()
     return L.project_all_constraints(
-        weights=tf.constant(k32), monotonicity=cfg["mono"], output_min=omin,
+        weights=weights, monotonicity=cfg["mono"], output_min=omin,
         output_max=omax, output_min_constraints=omin_c,
-        output_max_constraints=omax_c, convexity=cfg["conv"],
-        lengths=tf.constant(lens32),
+        output_max_constraints=omax_c, convexity=cfg["conv"], lengths=lengths,
         num_projection_iterations=cfg["iters"]).numpy()
-  layer = tfl.layers.PWLCalibration(impute_missing=True,
-                                    **S.pwl_layer_kwargs(cfg))
+  kw = S.pwl_layer_kwargs(cfg)
+  kw["input_keypoints"] = spelled_keypoints(cfg, spell.get("kp", "list"))
+  kw["monotonicity"], kw["convexity"] = mono_arg, conv_arg
+  kp_type = case.get("kp_type", "fixed")
+  if kp_type != "fixed":
+    kw["input_keypoints_type"] = kp_type
+  if np_dtype is np.float64:
+    kw["dtype"] = "float64"
+  out.label("keypoints-type:" + kp_type,
+            "keypoints-as:" + ("ints" if isinstance(
+                kw["input_keypoints"], list) and isinstance(
+                    kw["input_keypoints"][0], int) else
+                               spell.get("kp", "list").replace("ints", "list")))
+  layer = tfl.layers.PWLCalibration(impute_missing=True, **kw)
   layer.build((None, cfg["units"]))
-  layer.kernel.assign(k32)
+  layer.kernel.assign(k32.astype(np_dtype))
   layer.kernel.assign(layer.kernel.constraint(layer.kernel))
   res = layer.kernel.numpy()
   # keypoints_outputs() must report the cumulative sums (closing point if cyclic)
@@ -220,21 +523,31 @@ def apply_entry(case, k32, out):
     out.violate("keypoints_outputs() differs from cumulative kernel sums",
                 kind="keypoints_outputs")
   # imputed missing output
-  mo = S.materialize(case["missing"], (1, cfg["units"]))
-  layer.missing_output.assign(mo)
+  mo = missing_value(case, cfg)
+  layer.missing_output.assign(mo.astype(np_dtype))
   layer.missing_output.assign(layer.missing_output.constraint(
       layer.missing_output))
   mv = layer.missing_output.numpy().astype(np.float64)
+  mo64 = mo.astype(np.float64)
   out.checks += 1
   out.label("missing-output-checked")
+  inside = (cfg["omin"] is None or mo64.min() >= cfg["omin"]) and (
+      cfg["omax"] is None or mo64.max() <= cfg["omax"])
   if (cfg["omin"] is not None and mv.min() < cfg["omin"]) or (
       cfg["omax"] is not None and mv.max() > cfg["omax"]):
     out.violate("imputed missing output %s outside the bounds" % mv.tolist(),
                 kind="missing-bounds")
-  elif cfg["omin"] is None and cfg["omax"] is None and not np.array_equal(
-      mv, mo.astype(np.float64)):
-    out.violate("unbounded missing output changed by its constraint",
-                kind="missing-unchanged")
+  elif inside:
+    # already within the bounds (or no bounds): returned unchanged, exactly.
+    if cfg["omin"] is not None or cfg["omax"] is not None:
+      out.label("missing-output:inside-bounds")
+    # (TensorFlow kernels may flush float32 denormals to zero: a value below
+    # the smallest normal float32 may also come back as 0.)
+    denormal = np.abs(mo64) < float(np.finfo(np.float32).tiny)
+    if not np.all((mv == mo64) | (denormal & (mv == 0.0))):
+      out.violate("missing output %s already inside the bounds changed to %s "
+                  "by its constraint" % (mo64.tolist(), mv.tolist()),
+                  kind="missing-unchanged")
   return res
 
 
@@ -251,6 +564,25 @@ def _bias_outside(cfg, k):
               (hi is not None and b > hi))
 
 
+def _spacing_labels(cfg, out):
+  lens = lengths_of(cfg)
+  out.label("kp:" + cfg.get("kp_mode", "grid"))
+  if lens.min() < 2e-4:
+    out.label("gap<2e-4")
+  if lens.min() < 1e-5:
+    out.label("gap<1e-5")
+  if lens.max() > 100.0:
+    out.label("gap>100")
+  if lens.size >= 2:
+    r = lens[1:] / lens[:-1]
+    if r.max() > 5e5 or r.min() < 2e-6:
+      out.label("gap-ratio-beyond-5e5")
+  if len(cfg["keypoints"]) > 8:
+    out.label("keypoints>8")
+  if abs(cfg["keypoints"][0]) >= 1e4:
+    out.label("keypoints-offset>=1e4")
+
+
 def run_case(case):
   out = Outcome()
   cfg = case["cfg"]
@@ -259,7 +591,9 @@ def run_case(case):
   raw = S.materialize(case["kernel"], (rows, units))
   k32, feasible = raw, False
   kmode = case["kmode"]
-  if kmode != "raw":
+  if kmode == "short":
+    k32 = short_kernel(cfg, rows, case["aux"])
+  elif kmode != "raw":
     fk = feasible_kernel(cfg, rows, case["aux"])
     if fk is None:
       out.discard = "no-feasible-kernel"
@@ -269,15 +603,29 @@ def run_case(case):
       k32 = inject_violation(cfg, fk, case["aux"])
       feasible = bool(np.array_equal(k32, fk))
   has_bounds = cfg["omin"] is not None or cfg["omax"] is not None
+  one_sided = (cfg["omin"] is None) != (cfg["omax"] is None)
+  spell = case.get("spell") or {}
   out.label("entry:" + case["entry"], "kernel:" + kmode, "units:%d" % units,
             "mono:%d" % cfg["mono"], "conv:%d" % cfg["conv"],
-            "iters:%d" % cfg["iters"], "keypoints:%d" % len(cfg["keypoints"]))
+            "iters:%d" % cfg["iters"], "keypoints:%d" % len(cfg["keypoints"]),
+            "dtype:" + case.get("dtype", "float32"))
   if has_bounds:
     out.label("bounded")
   if cfg["clamp_min"] or cfg["clamp_max"]:
     out.label("clamped")
   if cfg["cyclic"]:
-    out.label("cyclic")
+    out.label("cyclic", "cyclic:entry=" + case["entry"])
+    if has_bounds:
+      out.label("cyclic+bounded")
+    if one_sided:
+      out.label("cyclic+one-sided-bound")
+    if len(cfg["keypoints"]) == 3:
+      out.label("cyclic+3-keypoints")
+  if case["entry"] != "lib" and (
+      (cfg["mono"] != 0 and spell.get("mono") == "str") or
+      (cfg["conv"] != 0 and spell.get("conv") == "str")):
+    out.label("spelled:strings")
+  _spacing_labels(cfg, out)
 
   k64 = k32.astype(np.float64)
   s_in = scale_of(k64, cfg["omin"], cfg["omax"])
@@ -302,6 +650,7 @@ def run_case(case):
       scale_of(np.sum(np.abs(k64), axis=0))))))
   exempt_conv = cfg["conv"] != 0 and has_bounds and cfg["mono"] == 0
   exempt_clamp = cfg["conv"] != 0
+  clamped = cfg["clamp_min"] or cfg["clamp_max"]
   worst = 0.0
   for u, m in enumerate(measures(cfg, res)):
     out.checks += 4
@@ -314,12 +663,43 @@ def run_case(case):
                   kind="bounds", bias_outside=_bias_outside(cfg, res[:, u]),
                   **sig)
     if exempt_conv:
-      out.label("exempt:convexity+bounds-without-monotonicity")
+      # tolerated relaxation; only what the capping of the outputs explains.
+      problem, tolerated = conv_residual(cfg, res[:, u], tol)
+      out.label("residual:convexity+bounds-without-monotonicity-judged")
+      if tolerated:
+        out.label("exempt:convexity+bounds-without-monotonicity")
+      if problem is not None:
+        out.violate("convexity (with bounds, without monotonicity) violated "
+                    "%s (tolerance %.3g) in unit %d via %s" % (
+                        problem, tol, u, case["entry"]),
+                    kind="conv-residual", **sig)
     elif m["conv"] > tol:
       out.violate("convexity violated by %.3g (tolerance %.3g) in unit %d via "
                   "%s" % (m["conv"], tol, u, case["entry"]), kind="conv", **sig)
-    if (cfg["clamp_min"] or cfg["clamp_max"]) and exempt_clamp:
-      out.label("exempt:clamp+convexity")
+    if clamped and exempt_clamp:
+      near, far = clamp_parts(cfg, res[:, u])
+      judged_far = kmode == "short"
+      if cfg["iters"] == 0:
+        out.label("exempt:clamp+convexity")
+      else:
+        if near is not None:
+          out.label("residual:clamp+convexity-first-keypoint-judged")
+          if near > clamp_tol:
+            out.violate("clamp at the first keypoint missed by %.3g (tolerance "
+                        "%.3g) with convexity after %d iteration(s) in unit %d "
+                        "via %s" % (near, clamp_tol, cfg["iters"], u,
+                                    case["entry"]),
+                        kind="clamp-residual", end="first", **sig)
+        if far is not None and judged_far:
+          out.label("residual:clamp+convexity-short-kernel-judged")
+          if far > clamp_tol:
+            out.violate("monotone convex kernel short of the clamp: clamp at "
+                        "the last keypoint still missed by %.3g (tolerance "
+                        "%.3g) after %d iteration(s) in unit %d via %s" % (
+                            far, clamp_tol, cfg["iters"], u, case["entry"]),
+                        kind="clamp-residual", end="last", **sig)
+        elif far is not None:
+          out.label("exempt:clamp+convexity")
     elif m["clamp"] > clamp_tol:
       out.violate("clamped bound missed by %.3g (tolerance %.3g) in unit %d "
                   "via %s" % (m["clamp"], clamp_tol, u, case["entry"]),
